@@ -32,6 +32,9 @@ type Output interface {
 	StartPoint(ctx context.Context, runIds []string) (StartPoint, error)
 	Send(ctx context.Context, reader ChannelReader) error
 	SetRunId(ctx context.Context, runId string) error
+	// DiscardStartPoint withdraws the stored resume position (the source has refused to
+	// continue from it) and adopts runId
+	DiscardStartPoint(ctx context.Context, runId string) error
 	Close()
 }
 
@@ -259,6 +262,16 @@ func (ro *RedisOutput) SetRunId(ctx context.Context, id string) error {
 		ro.cfg.RunId = id
 		return nil
 	}, 3, time.Second*4, 0.3)
+}
+
+func (ro *RedisOutput) DiscardStartPoint(ctx context.Context, id string) error {
+	// nothing of the stored position may be carried over to the new id : relabelling it would
+	// leave, until the snapshot is applied, a position of the refused history filed under the
+	// id the source accepts without looking at its second_replid_offset
+	if err := ro.invalidateCheckpoint(ctx, ro.cfg.RunId); err != nil {
+		return err
+	}
+	return ro.SetRunId(ctx, id)
 }
 
 func (ro *RedisOutput) Send(ctx context.Context, reader ChannelReader) error {
